@@ -13,6 +13,11 @@
 (*   cts        ConcurrentTaskSet::schedule: guarded f(), else ForceQueuingTag                   *)
 (*   pipe       serial pipeline stage: the completion callback runs the next queued item under a *)
 (*              guard, else ConcurrentTaskSet::schedule(ForceQueuingTag)                         *)
+(*   pipeexc    the same stage while the pipeline's task set holds an exception (a stage has     *)
+(*              thrown, nobody has discarded the backlog yet): the limited path does not consult *)
+(*              hasException() before it runs an item, so the chain goes on under the SAME guard;  *)
+(*              the force-queued continuation is dropped by the cancelled set and the rest of    *)
+(*              the backlog is discarded by wait() - never run                                   *)
 (*   graph      evaluateNodeConcurrently: continues with the ready dependent in a LOOP           *)
 (* A queued link is run later from a worker / wait loop (an empty stack).  A pool with zero       *)
 (* threads cannot queue: forceEnqueue calls the functor (unguarded).                              *)
@@ -52,7 +57,11 @@ Hand(t) ==
   /\ LET k == Top(t).k
          dec == Decide(conf.kind, conf.nw, Depth(t))
          setTop(f) == [stk[t] EXCEPT ![Len(stk[t])] = f] IN
-       CASE dec = "enqueue" ->
+       CASE dec = "enqueue" /\ conf.kind = "pipeexc" ->     \* dropped by the cancelled set; the rest is discarded
+              /\ stk' = [stk EXCEPT ![t] = setTop([Top(t) EXCEPT !.pc = "ret"])]
+              /\ fin' = fin \cup (k .. conf.n)
+              /\ UNCHANGED queue
+         [] dec = "enqueue" ->
               /\ queue' = queue \cup {k + 1}
               /\ stk' = [stk EXCEPT ![t] = setTop([Top(t) EXCEPT !.pc = "ret"])]
               /\ fin' = fin \cup {k}
